@@ -299,8 +299,8 @@ class BasisSHO(BasisSet):
         elif op_symbol == "x p":
             mat = -1.0j/2 *(self.op_mat(r"b b")
                     - self.op_mat(r"b^\dagger b^\dagger")
-                    + self.op_mat(r"b b^\dagger")
-                    - self.op_mat(r"b^\dagger b"))
+                    - self.op_mat(r"b b^\dagger")
+                    + self.op_mat(r"b^\dagger b"))
 
         elif op_symbol == "x dx":
             # x dx is real, while x p is imaginary
@@ -309,8 +309,8 @@ class BasisSHO(BasisSet):
         elif op_symbol == "p x":
             mat = -1.0j/2 *(self.op_mat(r"b b")
                     - self.op_mat(r"b^\dagger b^\dagger")
-                    - self.op_mat(r"b b^\dagger")
-                    + self.op_mat(r"b^\dagger b"))
+                    + self.op_mat(r"b b^\dagger")
+                    - self.op_mat(r"b^\dagger b"))
 
         elif op_symbol == "dx x":
             mat = (self.op_mat("p x") / -1.0j).real
